@@ -16,9 +16,35 @@ def run_trace_job(pid, job, tier, seed):
     prefix = os.path.join(wd, "tr")
     args = dict(job["args"].get("common", {}))
     args.update(job["args"][tier])
-    rec = ["--seed", seed + job.get("seed_offset", 0), "--shards", job.get("shards", NCPU), "--out", prefix] + flatten(args)
-    stats = run_recorder(job.get("variant", "release"), job["driver"], rec)
-    shards = sorted(glob.glob(prefix + ".*.ndjson"))
+    # thorough traces are cut into many more shards than JVMs run at a time, so that no shard outgrows a 2-3 GB heap
+    nshards = job.get("shards", NCPU * (8 if tier == "thorough" else 1))
+    procs = job.get("procs", 8 if (tier == "thorough" and job["driver"] not in ("hashkeys", "starts", "coord", "geom")) else 1)
+    if procs <= 1:
+        rec = ["--seed", seed + job.get("seed_offset", 0), "--shards", nshards, "--out", prefix] + flatten(args)
+        stats = run_recorder(job.get("variant", "release"), job["driver"], rec)
+    else:
+        # several recorder processes with different seeds share the work (the recorder is single-threaded)
+        import concurrent.futures
+        build_harness(job.get("variant", "release"))
+        div = {k: max(1, int(v) // procs) for k, v in args.items() if k in ("histories", "cases", "bases", "random", "boards", "transpositions", "linear", "linear-960") and str(v).isdigit()}
+
+        def one(k):
+            a = dict(args)
+            a.update(div)
+            if k > 0:
+                a.pop("subtrees", None)
+                a.pop("deep", None)
+            return run_recorder(job.get("variant", "release"), job["driver"],
+                                ["--seed", seed + job.get("seed_offset", 0) + 1000003 * k, "--shards", max(1, nshards // procs), "--out", "%s%d" % (prefix, k)] + flatten(a))
+        with concurrent.futures.ThreadPoolExecutor(max_workers=procs) as ex:
+            parts = list(ex.map(one, range(procs)))
+        stats = {"events": sum(p.get("events", 0) for p in parts), "histories": sum(p.get("histories", 0) for p in parts), "kinds": {}, "classes": {},
+                 "wall_s": max(p["wall_s"] for p in parts), "cmd": parts[0]["cmd"] + "  (x%d processes, seeds +1000003*k)" % procs}
+        for p in parts:
+            for key in ("kinds", "classes"):
+                for k2, v in p.get(key, {}).items():
+                    stats[key][k2] = stats[key].get(k2, 0) + v
+    shards = sorted(glob.glob(prefix + "*.ndjson"))
     if stats.get("events", 0) == 0:
         raise ToolError("recorder produced no events for job %s" % job["name"])
     res = run_tlc_shards(job["spec"], shards, job["checks"], wd, timeout=job.get("timeout", 3000), extra_env=job.get("env"))
@@ -70,7 +96,7 @@ def run_gen_job(pid, job, tier, seed):
     args = dict(job["args"].get("common", {}))
     args.update(job["args"].get(tier, {}))
     args["sfen-file"] = sfen
-    rec = ["--seed", seed, "--shards", NCPU, "--out", prefix, "--histories", 0] + flatten(args)
+    rec = ["--seed", seed, "--shards", NCPU * (8 if tier == "thorough" else 1), "--out", prefix, "--histories", 0] + flatten(args)
     stats = run_recorder(job.get("variant", "release"), job["driver"], rec)
     shards = sorted(glob.glob(prefix + ".*.ndjson"))
     res = run_tlc_shards(job["spec"], shards, job["checks"], wd, timeout=job.get("timeout", 3000))
